@@ -82,6 +82,27 @@ var typeLoopSrc = strings.Join(strings.Fields(`for l.value != zNewline && l.valu
 		l, _ = c.Next()
 	}`), "")
 
+// splitNSrc: the body of splitN (types.go) that DnsModel.TextCodec.splitN stands for
+var splitNSrc = strings.Join(strings.Fields(`{
+	if len(s) < n {
+		return []string{s}
+	}
+	sx := []string{}
+	p, i := 0, n
+	for {
+		if i <= len(s) {
+			sx = append(sx, s[p:i])
+		} else {
+			sx = append(sx, s[p:])
+			break
+
+		}
+		p, i = p+n, i+n
+	}
+
+	return sx
+}`), "")
+
 var firstBodyRe = regexp.MustCompile(`^\{s,e:=endingToTxtSlice\(c,"bad([A-Z0-9]+)([A-Za-z]+)"\)ife!=nil\{returne\}ifln:=len\(s\);ln==0\{returnnil\}rr\.([A-Za-z]+)=s\[0\]returnnil\}$`)
 
 type tstep struct {
@@ -133,6 +154,8 @@ func (s tstep) lean() string {
 		return fmt.Sprintf(".uintLax %d", s.Bits)
 	case "typelist":
 		return ".typeList"
+	case "endstrsplit":
+		return fmt.Sprintf(".endStrSplit %d", s.Bits)
 	case "salt":
 		return ".salt"
 	case "tokstr":
@@ -460,6 +483,7 @@ func (p *pkgInfo) printPlanOf(fd *ast.FuncDecl, typ string) ([]tstep, bool) {
 	}
 	var leaves []ast.Expr
 	var parts []ast.Expr
+	splitField, splitLen := "", 0 // `sx := splitN(rr.F, n)`
 	typeLoop := false // `for _, t := range rr.TypeBitMap { s += " " + Type(t).String() }` is the last statement before `return s`
 	if n := len(fd.Body.List); n >= 2 {
 		// `s := e1; s += e2; …; return s`: the concatenation of the parts
@@ -474,6 +498,16 @@ func (p *pkgInfo) printPlanOf(fd *ast.FuncDecl, typ string) ([]tstep, bool) {
 			if rs, ok := st.(*ast.RangeStmt); ok && i == n-3 && isTypeLoop(p, rs) {
 				typeLoop = true
 				continue
+			}
+			if ds, ok := st.(*ast.AssignStmt); ok && ds.Tok == token.DEFINE && len(ds.Lhs) == 1 && len(ds.Rhs) == 1 && p.src(ds.Lhs[0]) == "sx" && splitField == "" {
+				// `sx := splitN(rr.F, n)`: the pieces `strings.Join(sx, " ")` prints further down
+				if c, ok := isCall(ds.Rhs[0], "", "splitN"); ok && len(c.Args) == 2 && rrField(c.Args[0]) != "" && p.funcs["splitN"] != nil && p.src(p.funcs["splitN"].Body) == splitNSrc {
+					if n, err := strconv.Atoi(p.src(c.Args[1])); err == nil && n > 0 {
+						splitField, splitLen = rrField(c.Args[0]), n
+						continue
+					}
+				}
+				return nil, false
 			}
 			as, ok := st.(*ast.AssignStmt)
 			if !ok || as.Tok != token.ADD_ASSIGN || len(as.Lhs) != 1 || len(as.Rhs) != 1 || p.src(as.Lhs[0]) != "s" {
@@ -514,6 +548,13 @@ func (p *pkgInfo) printPlanOf(fd *ast.FuncDecl, typ string) ([]tstep, bool) {
 		if bl, ok := l.(*ast.BasicLit); ok && bl.Value == `" "` {
 			out = append(out, tstep{Kind: "blank"})
 			continue
+		}
+		if c, ok := isCall(l, "strings", "Join"); ok && len(c.Args) == 2 && p.src(c.Args[0]) == "sx" && splitField != "" {
+			if bl, ok := c.Args[1].(*ast.BasicLit); ok && bl.Value == `" "` {
+				out = append(out, tstep{Kind: "endstrsplit", Bits: splitLen, Field: splitField})
+				splitField = ""
+				continue
+			}
 		}
 		if c, ok := isCall(l, "strconv", "Itoa"); ok && len(c.Args) == 1 {
 			a := p.src(c.Args[0])
@@ -597,6 +638,9 @@ func (p *pkgInfo) printPlanOf(fd *ast.FuncDecl, typ string) ([]tstep, bool) {
 	}
 	if typeLoop {
 		out = append(out, tstep{Kind: "typelist", Field: "TypeBitMap"})
+	}
+	if splitField != "" {
+		return nil, false // pieces that are not printed
 	}
 	return out, true
 }
